@@ -70,7 +70,8 @@ Record Inv2 (s : state) : Prop := mkInv2 {
   J_up : key_ok (s_gauges s) (s_up s);
   J_act : key_ok (s_gauges s) (s_act s);
   J_fin : key_ok (s_gauges s) (s_fin s);
-  J_recv : recv_ok (s_locks s) }.
+  J_recv : recv_ok (s_locks s);
+  J_own : Forall (fun l => 0 <= l_owner l) (s_locks s) }.
 
 Lemma key_ok_add : forall store r k id r' g, refs_sorted r -> key_ok store r -> add_ref r k id = Some r' ->
   get_gauge store id = Some g -> g_start g = k -> key_ok store r'.
@@ -218,12 +219,31 @@ Proof.
   destruct (is_empty dc); apply IH; auto.
 Qed.
 
-Lemma distribute_internal_succeeds : forall cfg thr g ls di cache, thr_no_error thr -> gauge_ok g ->
-  remain_epochs g <> 0 -> exists w di' cache', distribute_internal cfg thr g ls di cache = Ok (w, di', cache').
+(* the condition that excludes finding C09-F5: every remaining coin of a NoLock gauge is at least its remaining epochs *)
+Definition nolock_ok (g : gauge) : Prop :=
+  g_pool g <> 0 -> forall remain, coins_sub (g_coins g) (g_dist g) = Some remain ->
+  Forall (fun c => remain_epochs g <= snd c) remain.
+
+Lemma nolock_coins_succeeds : forall re remain acc, 1 <= re -> Forall (fun c => re <= snd c) remain ->
+  exists total, nolock_coins re remain acc = Some total.
 Proof.
-  intros cfg thr g ls di cache Ne (Pc & Pd & Le & Sc & Sd) Re. unfold distribute_internal.
+  induction remain as [|[d0 R] r IH]; intros acc Hre H; cbn [nolock_coins]; [eauto|].
+  inversion H as [|? ? HR H']; subst. cbn in HR.
+  assert (Q : 1 <= Z.quot R re).
+  { rewrite Z.quot_div_nonneg by lia. apply Z.div_le_lower_bound; lia. }
+  destruct (Z.quot R re <=? 0) eqn:E; [apply Z.leb_le in E; lia|]. apply IH; auto.
+Qed.
+
+Lemma distribute_internal_succeeds : forall cfg thr g ls di cache, thr_no_error thr -> gauge_ok g ->
+  remain_epochs g <> 0 -> nolock_ok g -> exists w di' cache', distribute_internal cfg thr g ls di cache = Ok (w, di', cache').
+Proof.
+  intros cfg thr g ls di cache Ne (Pc & Pd & Le & Sc & Sd) Re Nl. unfold distribute_internal.
   destruct (coins_sub_succeeds _ _ Sc Pc Sd Pd Le) as (remain & E). rewrite E.
-  apply Z.eqb_neq in Re. rewrite Re.
+  pose proof (remain_epochs_range g) as Rr.
+  apply Z.eqb_neq in Re. rewrite Re. apply Z.eqb_neq in Re.
+  destruct (g_pool g =? 0) eqn:Pl; cbn [negb].
+  2:{ apply Z.eqb_neq in Pl. destruct (nolock_coins_succeeds (remain_epochs g) remain [] ltac:(lia) (Nl Pl remain E)) as (total & T).
+      rewrite T. eauto. }
   destruct (is_empty ls); [eauto|]. destruct (is_empty remain); [eauto|]. destruct (is_small_gauge cfg remain); [eauto|].
   destruct ((sum_locks ls =? 0) || (2 ^ max_int_bits <=? sum_locks ls)); [eauto|].
   destruct (locks_loop_succeeds cfg thr (sum_locks ls * to_int64 (remain_epochs g)) remain ls di cache [] Ne) as (di1 & c1 & t1 & L).
@@ -231,12 +251,12 @@ Proof.
 Qed.
 
 Lemma distribute_loop_succeeds : forall cfg thr tbl gs store lc di cache, thr_no_error thr ->
-  Forall (fun g => gauge_ok g /\ remain_epochs g <> 0) gs ->
+  Forall (fun g => gauge_ok g /\ remain_epochs g <> 0 /\ nolock_ok g) gs ->
   exists store' di', distribute_loop cfg thr tbl gs store lc di cache = Ok (store', di').
 Proof.
   induction gs as [|g r IH]; intros store lc di cache Ne H; cbn [distribute_loop]; [eauto|].
-  inversion H as [|? ? [Hg Hr] H']; subst. destruct (base_locks tbl g lc) as [ls lc1].
-  destruct (distribute_internal_succeeds cfg thr g ls di cache Ne Hg Hr) as (w & di1 & c1 & D). rewrite D. apply IH; auto.
+  inversion H as [|? ? (Hg & Hr & Hn) H']; subst. destruct (base_locks tbl g lc) as [ls lc1].
+  destruct (distribute_internal_succeeds cfg thr g ls di cache Ne Hg Hr Hn) as (w & di1 & c1 & D). rewrite D. apply IH; auto.
 Qed.
 
 (* ------------------------------------------------------------------ the payout succeeds *)
@@ -269,6 +289,15 @@ Proof.
   intros cfg thr g ls di cache w di' cache' Hr Hg H. unfold distribute_internal in H.
   destruct (coins_sub (g_coins g) (g_dist g)) as [remain|]; [|discriminate].
   destruct (remain_epochs g =? 0); [discriminate|].
+  destruct (negb (g_pool g =? 0)) eqn:Pl.
+  { apply negb_true_iff, Z.eqb_neq in Pl. destruct (nolock_coins (remain_epochs g) remain []) as [total|] eqn:NL; [|discriminate].
+    inversion H; subst; clear H. destruct (is_empty total); auto. apply add_lock_rewards_good; auto.
+    - unfold pool_addr, MODULE. lia.
+    - assert (G : forall rm acc t, pos_coins acc -> nolock_coins (remain_epochs g) rm acc = Some t -> pos_coins t).
+      { induction rm as [|[d0 R] r IH]; intros acc t Pa Ht; cbn [nolock_coins] in Ht; [inversion Ht; subst; auto|].
+        destruct (Z.quot R (remain_epochs g) <=? 0) eqn:E; [discriminate|]. apply Z.leb_gt in E.
+        eapply IH; [|exact Ht]. apply pos_coins_add; auto. constructor; [cbn; lia|constructor]. }
+      eapply G; [|exact NL]. constructor. }
   destruct (is_empty ls); [inversion H; subst; auto|]. destruct (is_empty remain); [inversion H; subst; auto|].
   destruct (is_small_gauge cfg remain); [inversion H; subst; auto|].
   destruct ((sum_locks ls =? 0) || (2 ^ max_int_bits <=? sum_locks ls)); [inversion H; subst; auto|].
@@ -277,7 +306,7 @@ Proof.
 Qed.
 
 Lemma distribute_loop_good : forall cfg thr tbl gs store lc di cache store' di',
-  recv_ok tbl -> lc_ok tbl lc -> Forall (fun g => cache_min_duration_ms < g_dur g) gs -> di_good di ->
+  recv_ok tbl -> lc_ok tbl lc -> Forall dur_ok gs -> di_good di ->
   distribute_loop cfg thr tbl gs store lc di cache = Ok (store', di') -> di_good di'.
 Proof.
   induction gs as [|g r IH]; intros store lc di cache store' di' Hr Hlc Hd Hg H; cbn [distribute_loop] in H.
@@ -287,7 +316,7 @@ Proof.
     destruct (distribute_internal cfg thr g (elig tbl g) di cache) as [[[w di1] c1]|e] eqn:D; [|discriminate].
     eapply IH; [exact Hr|exact Hlc1|exact Hd2| |exact H]. eapply distribute_internal_good; [|exact Hg|exact D].
     apply Forall_forall. intros l Hl. unfold recv_ok in Hr. rewrite Forall_forall in Hr. apply Hr.
-    unfold elig, qual_locks in Hl. destruct (is_empty (g_coins g)); [destruct Hl|].
+    unfold elig, qual_locks in Hl. destruct (negb (g_pool g =? 0)); [destruct Hl|]. destruct (is_empty (g_coins g)); [destruct Hl|].
     assert (F : Forall (fun x => In x tbl) (filter (fun l0 => g_dur g <=? l_dur l0) (locks_longer tbl (g_denom g) cache_min_duration_ms))).
     { apply filter_Forall, locks_longer_Forall. apply Forall_forall; auto. }
     rewrite Forall_forall in F. auto.
@@ -376,10 +405,11 @@ Proof.
 Qed.
 
 Theorem epoch_succeeds : forall cfg thr s, Inv s -> Inv2 s -> thr_no_error thr ->
+  (forall g, takes_part s g -> nolock_ok g) ->
   exists s', after_epoch_end cfg thr s = Ok s'.
 Proof.
-  intros cfg thr s I J Ne. unfold after_epoch_end.
-  pose proof I as [Ig Id Il Iu Ia If Ip Iids Ind Ilast Iacct Ifill]. destruct J as [Ju Ja Jf Jr].
+  intros cfg thr s I J Ne Hnl. unfold after_epoch_end.
+  pose proof I as [Ig Id Il Iu Ia If Ip Iids Ind Ilast Iacct Ifill]. destruct J as [Ju Ja Jf Jr Jo].
   assert (Rng : forall x, 0 < cnt_all (s_up s) x + cnt_all (s_act s) x + cnt_all (s_fin s) x -> get_gauge (s_gauges s) x <> None).
   { intros x Hx. apply Iids. specialize (Ip x). destruct (in_range s x); [reflexivity|lia]. }
   assert (NN : forall r x, 0 <= cnt_all r x) by (intros; apply cnt_all_nonneg).
@@ -416,11 +446,16 @@ Proof.
   (* 4: the distribution *)
   unfold distribute. cbn [s_locks s_gauges s_bank s_act s_fin s_now s_last_gauge s_up s_last_lock s_routable].
   rewrite Forall_forall in Ig, Id.
-  assert (FA : Forall (fun g => gauge_ok g /\ remain_epochs g <> 0) acts).
-  { apply Forall_forall. intros g Hi. destruct (InA g Hi) as [Hs Hc]. split; [auto|]. apply (remain_epochs_nonzero s g I Hs). apply A1pos; auto. }
+  assert (FA : Forall (fun g => gauge_ok g /\ remain_epochs g <> 0 /\ nolock_ok g) acts).
+  { apply Forall_forall. intros g Hi. destruct (InA g Hi) as [Hs Hc]. split; [auto|]. split; [apply (remain_epochs_nonzero s g I Hs); apply A1pos; auto|].
+    apply Hnl. split; auto. destruct (Z_lt_le_dec 0 (cnt_all (s_act s) (g_id g))); [left; auto|right].
+    destruct (Cm (g_id g)) as [_ E]. rewrite E in Hc.
+    destruct (moved_pos_ex (s_now s) ups (g_id g)) as (g2 & Hi2 & E2 & St); [lia|].
+    pose proof (Uget _ Hi2) as G2. rewrite E2 in G2. rewrite (Aget g Hi) in G2. inversion G2; subst g2.
+    split; auto. }
   destruct (distribute_loop_succeeds cfg thr (s_locks s) acts (s_gauges s) [] [] [] Ne FA) as (store' & di & DL). rewrite DL.
   assert (Fok : Forall gauge_ok acts) by (apply Forall_forall; intros g Hi; apply Ig; apply InA; auto).
-  assert (Fd : Forall (fun g => cache_min_duration_ms < g_dur g) acts) by (apply Forall_forall; intros g Hi; apply Id; apply InA; auto).
+  assert (Fd : Forall dur_ok acts) by (apply Forall_forall; intros g Hi; apply Id; apply InA; auto).
   assert (Lc0 : lc_ok (s_locks s) []) by (intros d v Hv; discriminate).
   assert (Ig' : Forall gauge_ok (s_gauges s)) by (apply Forall_forall; auto).
   destruct (distribute_loop_spec _ _ _ _ _ _ _ _ _ _ DL Il Lc0 Fok Fd NdA Aget Ig') as (L1 & L2 & _).
@@ -448,7 +483,7 @@ Proof.
   destruct (do_sends (s_bank s) di) as [b'|]; [|discriminate].
   destruct (check_finish acts act1 (s_fin s)) as [[act2 fin2]|] eqn:CF; [|discriminate].
   inversion H; subst s'; clear H.
-  pose proof I as [Ig Id Il Iu Ia If Ip Iids Ind Ilast Iacct Ifill]. destruct J as [Ju Ja Jf Jr].
+  pose proof I as [Ig Id Il Iu Ia If Ip Iids Ind Ilast Iacct Ifill]. destruct J as [Ju Ja Jf Jr Jo].
   destruct (gauges_of_spec _ _ _ GU) as [Uids Uget]. destruct (gauges_of_spec _ _ _ GA) as [Aids Aget].
   destruct (move_upcoming_spec _ _ _ _ _ _ MU Iu Ia) as (Su1 & Sa1 & Cm).
   destruct (move_upcoming_key (s_gauges s) _ _ _ _ _ _ Iu Ia Uget Ju Ja MU) as [Ku1 Ka1].
@@ -459,7 +494,7 @@ Proof.
   assert (InA : forall g, In g acts -> In g (s_gauges s)) by (intros g Hi; apply (get_gauge_some _ _ _ (Aget g Hi))).
   rewrite Forall_forall in Ig, Id.
   assert (Fok : Forall gauge_ok acts) by (apply Forall_forall; intros g Hi; apply Ig; auto).
-  assert (Fd : Forall (fun g => cache_min_duration_ms < g_dur g) acts) by (apply Forall_forall; intros g Hi; apply Id; auto).
+  assert (Fd : Forall dur_ok acts) by (apply Forall_forall; intros g Hi; apply Id; auto).
   assert (Lc0 : lc_ok (s_locks s) []) by (intros d v Hv; discriminate).
   assert (Ig' : Forall gauge_ok (s_gauges s)) by (apply Forall_forall; auto).
   destruct (distribute_loop_spec _ _ _ _ _ _ _ _ _ _ DL Il Lc0 Fok Fd NdA Aget Ig') as (_ & _ & L3 & _ & L5).
@@ -488,8 +523,16 @@ Qed.
 Lemma find_lock_recv : forall tbl id l, recv_ok tbl -> find_lock tbl id = Some l -> receiver l <> MODULE.
 Proof. intros tbl id l H F. apply find_lock_in in F. unfold recv_ok in H. rewrite Forall_forall in H. auto. Qed.
 
-Lemma with_locks_inv2 : forall s tbl last, Inv2 s -> recv_ok tbl -> Inv2 (with_locks s tbl last).
-Proof. intros s tbl last [] H. constructor; cbn; auto. Qed.
+Lemma with_locks_inv2 : forall s tbl last, Inv2 s -> recv_ok tbl -> Forall (fun l => 0 <= l_owner l) tbl -> Inv2 (with_locks s tbl last).
+Proof. intros s tbl last [] H H0. constructor; cbn; auto. Qed.
+
+Lemma set_lock_own : forall tbl l', Forall (fun l => 0 <= l_owner l) tbl -> 0 <= l_owner l' -> Forall (fun l => 0 <= l_owner l) (set_lock tbl l').
+Proof.
+  induction tbl as [|l0 r IH]; intros l' H Hl; cbn [set_lock]; [constructor|].
+  inversion H; subst. destruct (l_id l0 =? l_id l'); constructor; auto.
+Qed.
+Lemma find_lock_own : forall tbl id l, Forall (fun l => 0 <= l_owner l) tbl -> find_lock tbl id = Some l -> 0 <= l_owner l.
+Proof. intros tbl id l H F. apply find_lock_in in F. rewrite Forall_forall in H. auto. Qed.
 
 Lemma handle_inv2 : forall cfg s o s' v, Inv s -> Inv2 s -> handle cfg s o = Ok (s', v) -> Inv2 s'.
 Proof.
@@ -501,8 +544,8 @@ Proof.
     destruct (negb (mem dur (cfg_lockable cfg))); [discriminate|]. destruct (negb (mem denom (cfg_supplied cfg))); [discriminate|].
     destruct (bank_send (s_bank s) u MODULE (mk_coins raw)); [|discriminate].
     destruct (add_ref (s_up s) start (s_last_gauge s + 1)) as [up|] eqn:A; [|discriminate]. inversion C; subst s'; clear C.
-    destruct J as [Ju Ja Jf Jr].
-    set (g := mkGauge (s_last_gauge s + 1) perp denom dur (mk_coins raw) [] start n 0).
+    destruct J as [Ju Ja Jf Jr Jo].
+    set (g := mkGauge (s_last_gauge s + 1) perp denom dur (mk_coins raw) [] start n 0 0).
     assert (Or : in_range s (s_last_gauge s + 1) = false) by (unfold in_range; apply andb_false_iff; right; apply Z.leb_gt; lia).
     assert (Gn : get_gauge (s_gauges s) (g_id g) = None).
     { cbn [g_id g]. destruct (get_gauge (s_gauges s) (s_last_gauge s + 1)) eqn:G; auto.
@@ -513,43 +556,71 @@ Proof.
     + apply key_ok_fresh; auto.
     + apply key_ok_fresh; auto.
     + auto.
+    + auto.
   - destruct (negb (valid_raw raw) || (u <? 0)); [discriminate|].
     destruct (add_to_gauge cfg s u (mk_coins raw) g) as [s1|] eqn:C; [|discriminate]. inversion H; subst s1 v; clear H.
     unfold add_to_gauge in C. destruct (negb (distributable cfg s (mk_coins raw))); [discriminate|].
     destruct (get_gauge (s_gauges s) g) as [g0|] eqn:G; [|discriminate].
     destruct (is_finished_gauge g0 (s_now s)); [discriminate|].
     destruct (bank_send (s_bank s) u MODULE (mk_coins raw)); [|discriminate]. inversion C; subst s'; clear C.
-    destruct J as [Ju Ja Jf Jr]. destruct (get_gauge_some _ _ _ G) as [Eid _].
+    destruct J as [Ju Ja Jf Jr Jo]. destruct (get_gauge_some _ _ _ G) as [Eid _].
     assert (Hst : forall id g1, get_gauge (s_gauges s) id = Some g1 -> exists g', get_gauge (set_gauge (s_gauges s)
-       (mkGauge (g_id g0) (g_perp g0) (g_denom g0) (g_dur g0) (coins_add (g_coins g0) (mk_coins raw)) (g_dist g0) (g_start g0) (g_n g0) (g_filled g0))) id = Some g' /\ g_start g' = g_start g1).
+       (mkGauge (g_id g0) (g_perp g0) (g_denom g0) (g_dur g0) (coins_add (g_coins g0) (mk_coins raw)) (g_dist g0) (g_start g0) (g_n g0) (g_filled g0) (g_pool g0))) id = Some g' /\ g_start g' = g_start g1).
     { intros id g1 G1. rewrite get_set_gauge. cbn [g_id]. destruct (g_id g0 =? id) eqn:E; [|eauto].
       apply Z.eqb_eq in E. eexists. split; [reflexivity|]. cbn. rewrite Eid in E. subst id. congruence. }
     constructor; cbn [s_gauges s_up s_act s_fin s_locks]; auto; eapply key_ok_store; eauto.
   - unfold create_lock in H. destruct ((amt <=? 0) || (u <? 0)) eqn:A; [discriminate|]. apply orb_false_iff in A. destruct A as [_ A]. apply Z.ltb_ge in A.
-    inversion H; subst. apply with_locks_inv2; auto. apply Forall_app. split; [apply (J_recv _ J)|]. constructor; [|constructor].
-    unfold receiver, MODULE; cbn. lia.
+    inversion H; subst. apply with_locks_inv2; auto.
+    + apply Forall_app. split; [apply (J_recv _ J)|]. constructor; [|constructor]. unfold receiver, MODULE; cbn. lia.
+    + apply Forall_app. split; [apply (J_own _ J)|]. constructor; [cbn; lia|constructor].
   - unfold add_to_lock in H. destruct (find_lock (s_locks s) id) as [l|] eqn:F; [|discriminate].
     destruct (amt <=? 0); [discriminate|]. inversion H; subst. apply with_locks_inv2; auto.
-    apply set_lock_recv; [apply (J_recv _ J)|]. pose proof (find_lock_recv _ _ _ (J_recv _ J) F). unfold receiver in *; cbn. exact H0.
+    + apply set_lock_recv; [apply (J_recv _ J)|]. pose proof (find_lock_recv _ _ _ (J_recv _ J) F). unfold receiver in *; cbn. exact H0.
+    + apply set_lock_own; [apply (J_own _ J)|]. cbn. apply (find_lock_own _ _ _ (J_own _ J) F).
   - unfold begin_unlock in H. destruct (find_lock (s_locks s) id) as [l|] eqn:F; [|discriminate].
     pose proof (find_lock_recv _ _ _ (J_recv _ J) F) as R.
     destruct (amt <? 0); [discriminate|]. destruct (l_amt l <? amt); [discriminate|]. destruct (l_unl l); [discriminate|].
+    pose proof (find_lock_own _ _ _ (J_own _ J) F) as Ow.
     destruct (negb (amt =? 0) && negb (amt =? l_amt l)); inversion H; subst; apply with_locks_inv2; auto.
     + apply Forall_app. split; [apply set_lock_recv; [apply (J_recv _ J)|unfold receiver in *; cbn; exact R]|].
       constructor; [unfold receiver in *; cbn; exact R|constructor].
+    + apply Forall_app. split; [apply set_lock_own; [apply (J_own _ J)|cbn; exact Ow]|]. constructor; [cbn; exact Ow|constructor].
     + apply set_lock_recv; [apply (J_recv _ J)|unfold receiver in *; cbn; exact R].
+    + apply set_lock_own; [apply (J_own _ J)|cbn; exact Ow].
   - unfold withdraw in H. destruct (find_lock (s_locks s) id) as [l|]; [|discriminate].
     destruct (negb (l_unl l)); [discriminate|]. destruct (s_now s <? l_end l); [discriminate|]. inversion H; subst.
-    apply with_locks_inv2; auto. unfold del_lock, recv_ok. apply filter_Forall. apply (J_recv _ J).
+    apply with_locks_inv2; auto; unfold del_lock, recv_ok; apply filter_Forall; [apply (J_recv _ J)|apply (J_own _ J)].
   - unfold set_receiver in H. destruct (find_lock (s_locks s) id) as [l|] eqn:F; [|discriminate].
     destruct (to <? 0) eqn:T; [discriminate|]. apply Z.ltb_ge in T.
     cbv zeta in H. match type of H with context [if ?c then Err E_LOCK else _] => destruct c end; [discriminate|]. inversion H; subst.
-    apply with_locks_inv2; auto. apply set_lock_recv; [apply (J_recv _ J)|]. unfold receiver, MODULE; cbn.
-    destruct (to =? l_owner l) eqn:E; [apply Z.eqb_eq in E; lia|lia].
+    apply with_locks_inv2; auto.
+    + apply set_lock_recv; [apply (J_recv _ J)|]. unfold receiver, MODULE; cbn.
+      destruct (to =? l_owner l) eqn:E; [apply Z.eqb_eq in E; lia|lia].
+    + apply set_lock_own; [apply (J_own _ J)|]. cbn. apply (find_lock_own _ _ _ (J_own _ J) F).
   - inversion H; subst. destruct J. constructor; cbn; auto.
   - inversion H; subst. destruct J. constructor; cbn; auto.
   - destruct (after_epoch_end cfg (thr_fun thr) (advance s dt)) as [s1|] eqn:E; [|discriminate]. inversion H; subst s1 v.
     eapply epoch_inv2; [apply advance_inv; eauto| |exact E]. destruct J. constructor; cbn; auto.
+  - destruct (negb (valid_raw raw) || (n <? 0) || (two64 <=? n) || (u <? 0)); [discriminate|].
+    destruct (create_nolock_gauge cfg s u perp pool (mk_coins raw) start n) as [s1|] eqn:C; [|discriminate]. inversion H; subst s1 v; clear H.
+    unfold create_nolock_gauge in C.
+    destruct ((n =? 0) && negb perp); [discriminate|]. destruct (negb (distributable cfg s (mk_coins raw))); [discriminate|].
+    destruct (pool <=? 0); [discriminate|]. destruct (negb (mem pool (cfg_clpools cfg))); [discriminate|].
+    destruct (bank_send (s_bank s) u MODULE (mk_coins raw)); [|discriminate].
+    destruct (add_ref (s_up s) start (s_last_gauge s + 1)) as [up|] eqn:A; [|discriminate]. inversion C; subst s'; clear C.
+    destruct J as [Ju Ja Jf Jr Jo].
+    set (g := mkGauge (s_last_gauge s + 1) perp (- pool) 0 (mk_coins raw) [] start n 0 pool).
+    assert (Or : in_range s (s_last_gauge s + 1) = false) by (unfold in_range; apply andb_false_iff; right; apply Z.leb_gt; lia).
+    assert (Gn : get_gauge (s_gauges s) (g_id g) = None).
+    { cbn [g_id g]. destruct (get_gauge (s_gauges s) (s_last_gauge s + 1)) eqn:G; auto.
+      assert (in_range s (s_last_gauge s + 1) = true) by (apply (I_ids _ I); congruence). congruence. }
+    constructor; cbn [s_gauges s_up s_act s_fin s_locks].
+    + eapply (key_ok_add (set_gauge (s_gauges s) g) (s_up s) start (s_last_gauge s + 1) up g); [apply (I_up _ I)|apply key_ok_fresh; auto|exact A| |reflexivity].
+      rewrite get_set_gauge. cbn [g_id g]. rewrite Z.eqb_refl. reflexivity.
+    + apply key_ok_fresh; auto.
+    + apply key_ok_fresh; auto.
+    + auto.
+    + auto.
 Qed.
 
 Lemma run_inv2 : forall cfg ops s, cfg_ok cfg -> Inv s -> Inv2 s -> Inv2 (run cfg s ops).
@@ -562,12 +633,14 @@ Proof.
 Qed.
 
 Lemma init_inv2 : forall funds, Inv2 (init_state funds).
-Proof. intros. constructor; cbn; try (intros k id H; cbn in H; lia). constructor. Qed.
+Proof. intros. constructor; cbn; try (intros k id H; cbn in H; lia); constructor. Qed.
 
 (* finding C09-F3 is the ONLY way an epoch end can fail: without an error of the injected min-value quote,
    AfterEpochEnd succeeds in every reachable state *)
 Theorem epoch_fails_only_by_quote_error : forall cfg funds ops thr, cfg_ok cfg -> thr_no_error thr ->
-  exists s', after_epoch_end cfg thr (run cfg (init_state funds) ops) = Ok s'.
+  let s := run cfg (init_state funds) ops in
+  (forall g, takes_part s g -> nolock_ok g) ->
+  exists s', after_epoch_end cfg thr s = Ok s'.
 Proof.
   intros. apply epoch_succeeds; auto; [apply reachable_inv; auto|apply run_inv2; auto; [apply init_inv|apply init_inv2]].
 Qed.
